@@ -127,6 +127,7 @@ type agg struct {
 	maxLive  map[string]int
 	otherErr map[string]int
 	maxGor   int
+	stuck    int
 }
 
 type hist struct {
@@ -142,6 +143,7 @@ type hist struct {
 	opsMu   sync.Mutex
 	ops     []porcupine.Operation
 	tainted atomic.Bool // a call panicked: what it held is unknown, quiescence is not judged
+	stuck   bool        // the pool never drained (judged after the full cap)
 }
 
 // guard runs one call into fasthttp; a panic is itself a violation.
@@ -183,7 +185,7 @@ func TestC18(t *testing.T) {
 	r.Assume("the linearizability model covers the no-wait pool only (MaxConnWaitTimeout = 0, connsCleaner not started); a failed dial is recorded as two operations (slot taken at [call, Dial entry], slot returned at [Dial return, return]); LIFO/FIFO order is not part of the property and only counted (skipped_order_mismatch) in sequential histories")
 	r.Assume("SetMaxConns changes during a history are not exercised")
 
-	n := r.N(1000, 24000)
+	n := r.N(1000, 20000)
 	ag := &agg{hits: map[string]int{}, sigs: map[uint64]struct{}{}, maxLive: map[string]int{}, otherErr: map[string]int{}}
 
 	jobs := make(chan porcJob, 256)
@@ -215,9 +217,10 @@ func TestC18(t *testing.T) {
 			}
 		}
 		if aborted {
-			// goroutines of the hung history are abandoned inside fasthttp and would
-			// disturb the hooks and counters of every later history
-			r.Event("aborted_after_hang", 1)
+			// goroutines of a hung history are abandoned inside fasthttp and would
+			// disturb the hooks and counters of every later history (or: the pool
+			// failed to drain five times, each costing the full cap)
+			r.Event("aborted_early", 1)
 			break
 		}
 		if i%64 == 0 {
@@ -271,7 +274,7 @@ func checkLinearizable(r *mon.Run, j porcJob) {
 	}
 }
 
-// runHistory executes and judges one history; it reports whether the history hung.
+// runHistory executes and judges one history; it reports whether the run must stop (hang, repeated leaks).
 func runHistory(r *mon.Run, i, rep int, ag *agg, jobs chan<- porcJob) (hung bool) {
 	rnd := r.Rand("cfg", i)
 	cfg, plans := genCfg(rnd)
@@ -298,9 +301,14 @@ func runHistory(r *mon.Run, i, rep int, ag *agg, jobs chan<- porcJob) (hung bool
 	p.MaxSleep = cfg.MaxSleep
 	curNet.Store(fn)
 	p.OnPoint = func(name string) {
-		if name == "hc.close.enter" {
+		switch name {
+		case "hc.close.enter":
 			if n := curNet.Load(); n != nil {
 				n.closeEnter()
+			}
+		case "hc.close.afterdec":
+			if n := curNet.Load(); n != nil {
+				n.closeAfterDec()
 			}
 		}
 	}
@@ -355,7 +363,7 @@ func runHistory(r *mon.Run, i, rep int, ag *agg, jobs chan<- porcJob) (hung bool
 
 	if !hung && h.tainted.Load() {
 		// best effort clean-up only
-		h.hc.CloseIdleConnections()
+		h.guard("CloseIdleConnections", h.hc.CloseIdleConnections)
 		r.Event("skipped_quiescence_after_panic", 1)
 	}
 	if !hung && !h.tainted.Load() {
@@ -374,6 +382,14 @@ func runHistory(r *mon.Run, i, rep int, ag *agg, jobs chan<- porcJob) (hung bool
 	// verdicts of this history
 	fn.mu.Lock()
 	overEx, overUn, over, maxLive := fn.overExplained, fn.overUnexplained, fn.over, fn.maxLive
+	if fn.closeFirst {
+		// this build closes the socket before it releases the slot: sockets inside
+		// CloseConn still own their slot and explain nothing
+		overUn, overEx = overUn+overEx, 0
+		for k := range over {
+			over[k].Explained = false
+		}
+	}
 	dOK, dFail := fn.dialsOK, fn.dialsFail
 	fn.mu.Unlock()
 	if overEx > 0 {
@@ -436,6 +452,17 @@ func runHistory(r *mon.Run, i, rep int, ag *agg, jobs chan<- porcJob) (hung bool
 		r.Sample(map[string]any{"case": i, "hung": hung, "config": cfg.String(), "max_live": maxLive, "dials_ok": dOK, "dials_failed": dFail,
 			"err_no_free_conns": h.seen.nofree.Load(), "idle_reuse": h.seen.idleReuse.Load(), "hook_hits": hits, "recorded_ops": len(h.ops)})
 	}
+	if h.stuck {
+		ag.mu.Lock()
+		ag.stuck++
+		tooMany := ag.stuck >= 5
+		ag.mu.Unlock()
+		if tooMany {
+			// every such history costs the full quiescence cap; five refutations are enough
+			r.Event("aborted_after_repeated_leaks", 1)
+			return true
+		}
+	}
 	return hung
 }
 
@@ -458,7 +485,10 @@ func (h *hist) quiesce() {
 	sleep := 100 * time.Microsecond
 	var cnt, idle, live int
 	for {
-		h.hc.CloseIdleConnections()
+		if h.guard("CloseIdleConnections", h.hc.CloseIdleConnections) {
+			h.r.Event("skipped_quiescence_after_panic", 1)
+			return
+		}
 		cnt, idle, _ = fasthttp.VerifHostClientState(h.hc)
 		live, _ = h.net.liveNow()
 		if cnt == 0 && idle == 0 && live == 0 {
@@ -474,6 +504,7 @@ func (h *hist) quiesce() {
 	}
 	h.r.Event("quiescence_checked", 1)
 	el := time.Since(start)
+	h.stuck = !(cnt == 0 && idle == 0 && live == 0)
 	pub := h.hc.ConnsCount()
 	cfg := h.cfg.String()
 	pay := map[string]any{"config": cfg, "conns_count": cnt, "ConnsCount()": pub, "idle": idle, "live_sockets": live, "waited": el.String()}
@@ -744,7 +775,7 @@ func (h *hist) doWorker(g int, rnd *rand.Rand) {
 		}
 		switch v := rnd.Intn(100); {
 		case v < 6:
-			h.hc.CloseIdleConnections()
+			h.guard("CloseIdleConnections", h.hc.CloseIdleConnections)
 		case v < 14:
 			if c := h.hc.ConnsCount(); c < 0 || c > cfg.Max {
 				h.net.violate("connscount-out-of-range", fmt.Sprintf("ConnsCount() = %d with MaxConns=%d", c, cfg.Max), map[string]any{"config": cfg.String(), "value": c})
